@@ -195,6 +195,7 @@ def _harnesses(tier, seed):
                    nloops=1, pre='__CPROVER_assume(g_nargs >= 1);'))
     hs.append(h_check())
     hs.append(h_checkvars())
+    hs.append(h_compute_violations())
     hs += [h_indicator(), h_functional_violation(), h_algebraic_violation()]
     for k in (-2, -1, 0, 1, 2):
         hs += h_algconrhs(k)
@@ -387,6 +388,52 @@ void harness(void) { vp_one = 1; g_nv = nondet_int(); g_w = nondet_int(); g_reco
 ''']
     return Harness('C07.SolutionChecker.CheckVars', 'C07', parts, enforce='CheckVars', loop_contracts=True, expect_loop_obligations=1,
                    stubs=['ViolSummary::CheckViol (call-site obligations; its decision is C07.Violation.Check)', 'model / option accessors (arbitrary values)'])
+
+
+CKEEP = 'include/mp/flat/constr_keeper.h'
+
+
+def h_compute_violations():
+    """ConstraintKeeper::ComputeViolations: which constraints of one type are checked, and under which heading a violation is counted.
+    sol:chk:mode bits: 2 = constraints of the original model (top level), 4 = intermediate (reformulated away) auxiliary constraints,
+    8 = constraints sent to the solver.  A constraint that is not unused is checked exactly when one of its classes is requested (a
+    top-level constraint that also goes to the solver belongs to both); a violation is counted as original (0) for a top-level
+    constraint, else solver-side (2) when sent to the solver, else intermediate (1).  Witness constraint g_w, loop contract."""
+    TOP, SOLV = '(g_wdepth == 0)', '(!g_wbridged)'
+    want = '(!g_wunused && ((%s && (g_mode & 2)) || (%s && (g_mode & 8)) || (!%s && !%s && (g_mode & 4))))' % (TOP, SOLV, TOP, SOLV)
+    idx = '(%s ? 0 : %s ? 2 : 1)' % (TOP, SOLV)
+    done = '(g_w >= i && g_w < g_n)'
+    state = '(g_checked == %s && g_counted == (%s && g_wviol) && (g_counted ==> g_cidx == %s))' % (want, want, idx)
+    parts = [VIOL, '''
+int g_n, g_w, g_mode; _Bool g_wunused, g_wbridged, g_wviol; int g_wdepth;        /* the witness constraint: flags, depth, whether Check finds it violated */
+_Bool g_checked, g_counted; int g_cidx; int g_cur;
+struct pair_bool_double { _Bool first; double second; };
+static _Bool c_IsUnused(int i) { return i == g_w ? g_wunused : nondet_bool(); }
+static _Bool c_IsBridged(int i) { return i == g_w ? g_wbridged : nondet_bool(); }
+static int c_GetDepth(int i) { int d = nondet_int(); __CPROVER_assume(d >= 0); return i == g_w ? g_wdepth : d; }
+static Violation c_ComputeViolation(int i) { __CPROVER_assert(i >= 0 && i < g_n, "a constraint of this keeper"); g_cur = i; if (i == g_w) g_checked = 1; Violation v; v.viol_ = nondet_double(); v.valX_ = nondet_double(); return v; }
+static struct pair_bool_double vp_check(Violation v, double ea, double er) { struct pair_bool_double r; r.first = g_cur == g_w ? g_wviol : nondet_bool(); r.second = nondet_double(); return r; }   /* C07.Violation.Check */
+static void vp_count(int index, int i) { __CPROVER_assert(index >= 0 && index < 3, "one of the three headings"); if (i == g_w) { g_counted = 1; g_cidx = index; } }
+static int chk_check_mode(void) { return g_mode; }
+static double chk_GetFeasTol(void) { return nondet_double(); }
+static double chk_GetFeasTolRel(void) { return nondet_double(); }
+''',
+             Fn(CKEEP, r'void ComputeViolations\(SolCheck& chk\) override \{\s*if \(cons_\.size\(\)\)', 'void ComputeViolations(void)',
+                contract='__CPROVER_requires(g_n >= 0 && g_n <= 1000000 && g_w >= 0 && g_w < g_n && g_wdepth >= 0 && !g_checked && !g_counted) '
+                         '__CPROVER_ensures(%s) __CPROVER_assigns(g_checked, g_counted, g_cidx, g_cur)' % state,
+                subst=[(r'auto& conviolmap =\s*cons_\.front\(\)\.con_\.IsLogical\(\) \?\s*chk\.ConViolLog\(\) :\s*chk\.ConViolAlg\(\);', 'int conviolmap = nondet_bool() ? 1 : 2;', 1),
+                       (r'const auto& x = chk\.x_ext\(\);', '', 1), (r'ViolSummArray<3>\* conviolarray \{nullptr\};', 'int conviolarray = 0;', 1),
+                       (r'conviolarray =\s*(?://[^\n]*\n\s*)?&conviolmap\[GetShortTypeName\(\)\];', 'conviolarray = conviolmap;', 1),
+                       (r'\(int\)conviolarray->size\(\)', '3', 1), (r'\(\*conviolarray\)\[index\]\.CountViol\(\s*viol, cr\.second, cons_\[i\]\.con_\.name\(\)\);', 'vp_count(index, i);', 1),
+                       (r'cons_\.size\(\)', 'g_n', 2), (r'cons_\[i\]\.(IsUnused|IsBridged|GetDepth)\(\)', r'c_\1(i)', 3),
+                       (r'cons_\[i\]\.con_\.ComputeViolation\(x\)', 'c_ComputeViolation(i)', 1), (r'viol\.Check\(', 'vp_check(viol, ', 1), (r'chk\.(\w+)\(\)', r'chk_\1()', -1)],
+                loops={0: '__CPROVER_assigns(i, g_checked, g_counted, g_cidx, g_cur, conviolarray) __CPROVER_loop_invariant(i >= 0 && i <= g_n && (%s ==> %s) && (!%s ==> (!g_checked && !g_counted))) __CPROVER_decreases(i + 1)' % (done, state, done)},
+                label='mp::ConstraintKeeper::ComputeViolations', nmatches=1), '''
+void harness(void) { vp_one = 1; g_n = nondet_int(); g_w = nondet_int(); g_mode = nondet_int(); g_wunused = nondet_bool(); g_wbridged = nondet_bool(); g_wviol = nondet_bool(); g_wdepth = nondet_int();
+  g_checked = 0; g_counted = 0; ComputeViolations(); VP_REACH("normal return"); }
+''']
+    return Harness('C07.ConstraintKeeper.ComputeViolations', 'C07', parts, enforce='ComputeViolations', loop_contracts=True, expect_loop_obligations=1,
+                   stubs=['constraint flags / depth (arbitrary per constraint)', 'con_.ComputeViolation (C07.*.ComputeViolation)', 'Violation::Check (C07.Violation.Check)', 'the violation summary map (ghost)'])
 
 
 def h_check():
